@@ -147,6 +147,8 @@ def run(ctx):
         ctx.info.append("%d runs compared with the model's terminal state inside Coq (runs with <= 120 requests and "
                         "<= 16 workers); all %d runs judged by the property on the implementation's observation" % (
                             len(small), len(rows)))
+    if not quick:
+        ctx.harness_race_run("c07", ["-out", "race.jsonl", "-seed", ctx.seed + 5, "-n", 150, "-cancel", 150], "in the engine under load")
     if ctx.broken and not ctx.findings and os.path.exists(os.path.join(verif.ROOT, "harness", "bin", "c07")):
         # search harder on the implementation: more runs, several GOMAXPROCS settings
         for gmp, n in (("1", 150), ("2", 150), ("16", 300)):
